@@ -25,7 +25,8 @@ ASSUMPTIONS = ["B=1024 (quick) / 4096 (thorough) nested paths, 6-7 dyadic step s
                "margin 0.25 (quick) / 0.2 (thorough) below the advertised order",
                "closed forms are cross-checked against fine-grid solves by two different solvers (vt/closed_forms.py)",
                "non-commutative general noise: reference = same solver at dt_min/16 on the same Brownian object"]
-REQUIRED_COUNTERS = ["fixed_cases", "adaptive_cases", "adaptive_binding_pairs", "adaptive_monotone_pairs", "fine_reference_cases", "levels_measured", "ito_corr_crosscheck"]
+REQUIRED_COUNTERS = ["fixed_cases", "adaptive_cases", "adaptive_binding_pairs", "adaptive_monotone_pairs", "fine_reference_cases", "levels_measured", "ito_corr_crosscheck",
+                     "fixed_cases_with_offgrid_intermediate_outputs", "adaptive_cases_via_sdeint_adjoint"]
 THRESHOLDS = {"margin_quick": 0.25, "margin_thorough": 0.2}
 
 
@@ -101,6 +102,12 @@ def run_fixed(case):
     base = torchsde.BrownianInterval(t0=t0, t1=t0 + T, size=(B, fam.m), entropy=entropy, levy_area_approximation=levy,
                                      cache_size=None if rng.random() < 0.5 else 45)
     ts = [t0, t0 + T]
+    # a share of the ladders also requests outputs at a few intermediate times OFF every step grid of the ladder (they
+    # are read by interpolation and are not compared - interpolation is only O(sqrt(dt)) accurate); the final state must
+    # converge at the advertised order all the same: what is requested in between must not feed back into the solve
+    if rng.random() < 0.3:
+        ts = [t0, t0 + 0.13 * T, t0 + 0.41 * T, t0 + 0.77 * T, t0 + T]
+        cnt["fixed_cases_with_offgrid_intermediate_outputs"] = 1
     errs, dts, order = [], [], None
     with torch.no_grad():
         sols = []
@@ -161,12 +168,18 @@ def run_adaptive(case):
                                      levy_area_approximation=levy)
     tols = [1e-1, 1e-2, 1e-3, 1e-4, 1e-5]
     errs, trials = [], []
+    # entry point: sdeint, or the forward solve of sdeint_adjoint with (fixed, loose) adjoint tolerances - the user's
+    # rtol/atol govern the forward solve there too
+    entry_kw = {}
+    if rng.random() < 0.35 and isinstance(fam, torch.nn.Module):
+        entry_kw = dict(adjoint=True, adjoint_rtol=1e-1, adjoint_atol=1e-1)
+        cnt["adaptive_cases_via_sdeint_adjoint"] = 1
     with torch.no_grad():
         for tol in tols:
             pr = probes.SolverProbe(keep_states=False)
             with pr.installed():
                 ys = zoo.solve(cell, fam, y0, [t0, t0 + T], 0.25, bm=base, adaptive=True, rtol=tol, atol=tol,
-                               dt_min=1e-6)
+                               dt_min=1e-6, **entry_kw)
             trials.append(len(pr.errors))
             exact = cf.exact_on_path(fam, base, t0, t0 + T, y0)
             errs.append(_rms(ys[-1], exact))
